@@ -319,6 +319,14 @@ func (g *genState) genMutating(kind string, file string) Op {
 			}
 		}
 		op.Steps = genPauseSteps(r)
+		if g.focus == "C11" || g.focus == "C03" {
+			// the style/line oracles do not need long pauses
+			for i := range op.Steps {
+				if op.Steps[i].AdvanceS > 130 {
+					op.Steps[i].AdvanceS = 61 + op.Steps[i].AdvanceS%60
+				}
+			}
+		}
 	}
 	op.renderArgv()
 	return op
